@@ -402,6 +402,10 @@ def rule_LAY(FA):
             comp = ty.endswith(', true>')
             if bool(huff) != comp:
                 problems.append('name %s compressed, type %s' % ('says' if huff else 'does not say', 'is' if comp else 'is not'))
+            # the stated space of the binary trees (about 1.05 n bitlen) is the overhead of RSWide (3.9 %); RSNarrow carries
+            # two words per 512 bits plus hints (about 31 %)
+            if 'RSNarrow' in ty:
+                problems.append('the binary wavelet tree is instantiated with RSNarrow (overhead about 31 %), the stated 1.05 bound is that of RSWide')
         props = ['C14', 'C09'] + (['C02', 'C15'] if huff and kind == 'QWT' else ['C01'] if kind == 'QWT' else ['C03', 'C15'] if kind == 'WT' else ['C05'])
         out.append(Inst('R-LAY', 'R-LAY|d|alias %s' % short, 'violation' if problems else 'ok', 'src/lib.rs',
                         '; '.join(problems) if problems else '%s = %s' % (short, ty.replace('qvector::rs_qvector::rs_support_plain::', '').replace('qvector::rs_qvector::', '')[:110]), props))
@@ -968,6 +972,27 @@ def rule_HINT(FA):
             if not pushes:
                 continue
             n += 1
+            # the other side of the test is the number of hints taken so far: it is ADVANCED when a hint is taken; a constant
+            # stored into it (`cur_hint = 1` for `cur_hint += 1`) makes every later line look like a new crossing
+            for side in ('a', 'b'):
+                o = cmp_rv[side]
+                if 'p' not in o or o['p']['proj']:
+                    continue
+                hl = o['p']['l']
+                for _ in range(3):     # through copies
+                    dh = F.defs.get(hl, [])
+                    if len(dh) == 1 and dh[0][1] == 'assign' and dh[0][2]['k'] in ('use', 'cast') and 'p' in dh[0][2]['a'] and not dh[0][2]['a']['p']['proj']:
+                        hl = dh[0][2]['a']['p']['l']
+                    else:
+                        break
+                if F.names.get(hl) is None or hl in {r for r in _roots(F, quot) if isinstance(r, int)}:
+                    continue
+                stores = [d for d in F.defs.get(hl, []) if d[1] == 'assign' and d[0] in F.reach and bi in dom[d[0]] and d[0] != bi]
+                consts = [d for d in stores if norm(F.rvalue_term(d[2]))[:1] == ('const',)]
+                if stores and len(consts) == len(stores):
+                    out.append(Inst('R-HINT', 'R-HINT|%s::new|%s advances' % (base, F.names.get(hl)), 'violation', t.get('line', ''),
+                                    'when a hint is taken `%s` is set to the constant %s instead of being advanced: after the second period every line is recorded as a crossing, the hint table no longer maps k / period to a block' % (
+                                        F.names.get(hl), show(norm(F.rvalue_term(consts[0][2])))), props))
             roots = {r for r in _roots(F, quot) if isinstance(r, int)}
             fresh = []
 
